@@ -992,6 +992,21 @@ func (o *qOracle) validateManageFilter(step int, prev, next Snap, r resolvedOp, 
 	if wantN > limit {
 		wantN = limit
 	}
+	// the state machine first: whatever the filter says, the operation may only move messages out of
+	// the states it is defined for
+	for _, p := range prev {
+		if inList(p.State, manageAllowed[kind]) {
+			continue
+		}
+		n, ok := next[p.ID]
+		var np *Msg
+		if ok {
+			np = &n
+		}
+		if v := o.side(p, np, now); v != sideOK && !(np == nil && v == sideDepth) {
+			return fail("C02,C14", "op-moved-illegal-source", step, "%s(route=%q target=%q state=%q) moved a %s message: %s -> %s", kind, op.Route, op.Target, op.State, p.State, fmtMsg(p), fmtOpt(n, ok))
+		}
+	}
 	if res.Preview != op.Preview {
 		return fail("C14", "preview-flag", step, "%s preview_only=%v answered preview_only=%v", kind, op.Preview, res.Preview)
 	}
